@@ -196,6 +196,7 @@ let run_case (line : string) =
         let add s = (if not !first then Buffer.add_char b ';'); first := false; Buffer.add_string b s in
         let finished = ref false in
         let final_out = ref None in
+        let final_fl = ref None in
         List.iter (fun c ->
           if not !finished then begin
             match String.split_on_char ':' c with
@@ -229,15 +230,20 @@ let run_case (line : string) =
             | ["f"] ->
                 let (r, s') = stream_flush !st in st := s'; add ("f:" ^ verdict r)
             | ["g"] -> add (Printf.sprintf "g:%d" (List.length (api_stream_out !st)))
+            | ["o"] -> (match (!st).st_state with
+                        | None -> add "o:none"
+                        | Some _ -> add (Printf.sprintf "o:%d" (List.length (api_stream_out !st))))
             | ["x"] ->
                 let (r, k) = stream_finish !st in
                 finished := true;
                 add ("x:" ^ verdict r);
-                final_out := Some (List.rev k.k_out)
+                final_out := Some (List.rev k.k_out);
+                final_fl := Some (int_of_n k.k_flushes)
             | _ -> failwith ("bad stream call " ^ c)
           end) (split_nonempty ';' (get kv "calls" ""));
         let out = match !final_out with Some o -> o | None -> api_stream_out !st in
-        Printf.printf "res=%s out=%s\n" (Buffer.contents b) (hex_of_bytes out)
+        let fl = match !final_fl with Some f -> f | None -> int_of_n (stream_sink !st).k_flushes in
+        Printf.printf "res=%s out=%s fl=%d\n" (Buffer.contents b) (hex_of_bytes out) fl
     | "ref_lzma" ->
         let size = (match get kv "size" "none" with "none" -> n_of_decimal "18446744073709551615" | s -> n_of_decimal s) in
         (match api_ref_lzma (get kv "lenient" "0" = "1") (fprops_of kv) (n_of_decimal (get kv "dict" "4096")) size (prog_of (get kv "prog" "-")) (n_of_decimal (get kv "delta" "0")) with
